@@ -1,10 +1,11 @@
 (* C09 - Flag modification is exact and verification flags only ever restrict. Statements only (FlagProofs.v).
    The svf table, the STANDARD set and the list of flag tests are GENERATED from the source on every run.
-   PARTIAL, stated: whole-execution monotonicity (success under B implies success under A for A <= B) is NOT proved as one
-   theorem; what is proved: every flag test in the executed interpreter code has a restrictive shape (generated site list),
-   and each flag-dependent check (script-number minimality, signature / public-key encoding) passes under A whenever it
-   passes under B. Whole-execution monotonicity is evaluated on paired runs of the implementation. *)
-From BV Require Import Base BaseProofs ScriptNum Script Interp Value Transforms Cli FlagProofs FlagStepProofs.
+   Whole-execution monotonicity (success under B implies the same success under A for A <= B) is proved for every step, for every
+   evaluation (EvalScript) and for the whole script-only debugger session; for sessions with several scripts (scriptSig + scriptPubKey,
+   P2SH) it is proved per evaluation only, because removing the P2SH flag changes WHICH scripts are evaluated (the final environment is
+   then that of an earlier script) - that case is evaluated on paired runs of the implementation. Also proved: every flag test in the
+   executed interpreter code has a restrictive shape (generated site list). *)
+From BV Require Import Base BaseProofs ScriptNum Script Interp Session Value Transforms Cli FlagProofs FlagStepProofs VerifySpec FlagEvalProofs.
 From BV.Gen Require Import Consts CliTables.
 Local Open Scope Z_scope.
 
@@ -57,6 +58,20 @@ Theorem C09_step_only_restricts : forall low_s c A B, flags_sub A B -> forall e 
   step_script low_s (with_flags c B) e pc local = (e1, pc1, SOk) -> step_script low_s (with_flags c A) e pc local = (e1, pc1, SOk).
 Proof. exact step_script_mono. Qed.
 
+(* ... for every evaluation: an EvalScript run that succeeds under B succeeds with the same final environment under every subset A of B *)
+Theorem C09_evaluation_only_restricts : forall low_s c A B, flags_sub A B -> forall e pc e1,
+  eval_ref low_s (with_flags c B) e pc = (e1, SOk) -> eval_ref low_s (with_flags c A) e pc = (e1, SOk).
+Proof. exact eval_ref_mono. Qed.
+
+(* ... and for the whole script-only session (btcdeb '[script]' stack..., not pay-to-script-hash shaped under B): if running it to the end
+   succeeds under B, running it to the end under A succeeds with the same final environment *)
+Theorem C09_script_session_only_restricts : forall low_s tap_tweak_ok sha256 c A B, flags_sub A B -> forall script stack ed f,
+  script <> [] -> i_p2sh (setup_env (with_flags c B) script stack [] ed None) = false -> (length script + 6 <= f)%nat ->
+  forall vB, Session.dbg_continue low_s tap_tweak_ok sha256 f (with_flags c B) (setup_env (with_flags c B) script stack [] ed None) = (vB, SOk) ->
+  exists vA, Session.dbg_continue low_s tap_tweak_ok sha256 f (with_flags c A) (setup_env (with_flags c A) script stack [] ed None) = (vA, SOk)
+             /\ i_e vA = i_e vB /\ i_done vA = true.
+Proof. exact script_session_mono. Qed.
+
 Example C09_ex : svf_parse_flags main_initial_flags [45;78;85;76;76;68;85;77;77;89;44;43;83;73;71;80;85;83;72;79;78;76;89] (* "-NULLDUMMY,+SIGPUSHONLY" *)
   = Some (Z.lor (Z.land STANDARD_SCRIPT_VERIFY_FLAGS (Z.lnot SCRIPT_VERIFY_NULLDUMMY)) SCRIPT_VERIFY_SIGPUSHONLY)
   /\ svf_parse_flags main_initial_flags [43;70;79;79] = None /\ svf_parse_flags main_initial_flags [] = None
@@ -65,6 +80,8 @@ Proof. repeat split; vm_compute; reflexivity. Qed.
 
 Print Assumptions C09_table_ok.
 Print Assumptions C09_step_only_restricts.
+Print Assumptions C09_evaluation_only_restricts.
+Print Assumptions C09_script_session_only_restricts.
 Print Assumptions C09_parse_known.
 Print Assumptions C09_default_list.
 Print Assumptions C09_flag_sites_restrictive.
